@@ -22,7 +22,7 @@ inductive Kind where
   deriving DecidableEq, Repr
 
 inductive Arch where
-  | x86 | x64
+  | x86 | x64 | a64
   deriving DecidableEq, Repr
 
 /-- `InstOptions::kShortForm`, `kLongForm` -/
@@ -36,6 +36,7 @@ structure Fixup where
   rel : Int
   size : Nat
   reloc : Option Nat
+  a64b : Bool := false          -- `OffsetFormat` of an AArch64 `b`: imm26 at bit 0, two low bits discarded
   deriving DecidableEq, Repr
 
 /-- `LabelEntry` (+ its `ExtraData` when named) -/
@@ -118,6 +119,8 @@ structure Emitter where
   diag : Bool := false             -- `_diagnostic_options` (validation on)
   reserved : Bool := true          -- `_forced_inst_options & kReserved`
   dirty : Bool := false            -- `_dirty_section_links`
+  -- fixed by the constructor
+  fam64 : Bool := false            -- `_arch_mask`: false = x86 family (X86|X64), true = AArch64 family
   deriving DecidableEq, Repr
 
 structure World where
@@ -125,8 +128,18 @@ structure World where
   es : List Emitter := [{ kind := .asm }, { kind := .asm }, { kind := .bld }, { kind := .cmp }]
   deriving DecidableEq, Repr
 
-/-- freshly constructed objects -/
+/-- freshly constructed objects (x86 emitters) -/
 def World.fresh : World := {}
+
+/-- freshly constructed objects with the AArch64 emitters (`a64::Assembler` x2, `a64::Builder`, `a64::Compiler`) -/
+def World.freshA64 : World :=
+  { es := [{ kind := .asm, fam64 := true }, { kind := .asm, fam64 := true }, { kind := .bld, fam64 := true }, { kind := .cmp, fam64 := true }] }
+
+/-- does an emitter of this family accept a holder of this architecture (`arch_mask & (1 << arch)`) -/
+def archOk (fam64 : Bool) : Option Arch → Bool
+  | none => false
+  | some .a64 => fam64
+  | some _ => !fam64
 
 /-! ### small helpers -/
 
@@ -156,6 +169,13 @@ def encodeSigned (d : Int) (size : Nat) : Option (List Nat) :=
   let half : Int := (2 : Int) ^ (8 * size - 1)
   if -half ≤ d ∧ d < half then some (leBytes (d % (2 * half)).toNat size) else none
 
+/-- displacement field of an AArch64 `b` (signed imm26, multiple of 4), to be ORed into the opcode word -/
+def encodeA64B (d : Int) : Option (List Nat) :=
+  if d % 4 = 0 ∧ -134217728 ≤ d ∧ d < 134217728 then some (leBytes ((d / 4) % 67108864).toNat 4) else none
+
+def encodeFixup (a64b : Bool) (d : Int) (size : Nat) : Option (List Nat) :=
+  if a64b then encodeA64B d else encodeSigned d size
+
 def textSection : Sec :=
   { name := [46, 116, 101, 120, 116], flags := 16387, align := 0, order := -2147483648, hasOffset := true, bytes := [] }
 
@@ -177,15 +197,16 @@ def Emitter.onAttach (h : Holder) (e : Emitter) : Emitter :=
   match e.kind with
   | .asm =>
     -- BaseAssembler::on_attach: BaseAssembler_initSection(.text); x86::Assembler::on_attach
-    { e with sec := some 0, off := (h.secs.headD textSection).bytes.length, instAlign := 1,
+    { e with sec := some 0, off := (h.secs.headD textSection).bytes.length, instAlign := if h.arch == some .a64 then 4 else 1,
              invalidRex := h.arch == some .x86 }
   | .bld =>
     -- BaseBuilder_init_section: section node 0 becomes the whole list; x86::Builder::on_attach
-    { e with nodes := [.section 0], cursor := some 0, sectionNodes := max e.sectionNodes 1, instAlign := 1 }
+    { e with nodes := [.section 0], cursor := some 0, sectionNodes := max e.sectionNodes 1,
+             instAlign := if h.arch == some .a64 then 4 else 1 }
   | .cmp =>
     -- … + BaseCompiler_initDefaultPasses (GlobalConstPoolPass) + x86::Compiler::on_attach (X86RAPass)
-    { e with nodes := [.section 0], cursor := some 0, sectionNodes := max e.sectionNodes 1, instAlign := 1,
-             passes := e.passes + 2 }
+    { e with nodes := [.section 0], cursor := some 0, sectionNodes := max e.sectionNodes 1,
+             instAlign := if h.arch == some .a64 then 4 else 1, passes := e.passes + 2 }
 
 /-- the derived `on_detach` chains down to `BaseEmitter::on_detach`; `_code = nullptr` is done by the caller in C++ -/
 def Emitter.onDetach (e : Emitter) : Emitter :=
@@ -257,7 +278,7 @@ def World.attach (w : World) (i : Nat) : World × String :=
   match w.es[i]? with
   | none => (w, "bad-emitter")
   | some e =>
-    if w.h.arch.isNone then (w, "InvalidArch")            -- `arch_mask` has no bit for Arch::kUnknown
+    if !archOk e.fam64 w.h.arch then (w, "InvalidArch")   -- `arch_mask` has no bit for this (or the unknown) architecture
     else if e.code then (w, "ok")                          -- already attached to this holder
     else ({ h := { w.h with attached := w.h.attached ++ [i] }, es := updAt w.es i (Emitter.onAttach w.h) }, "ok")
 
@@ -309,7 +330,7 @@ def resolveFixups (h : Holder) (toSec toOff : Nat) : List Fixup → Holder × Na
         let (h, n, left, err) := resolveFixups h toSec toOff r
         (h, n, f :: left, err)
       else
-        match encodeSigned ((toOff : Int) - (f.off : Int) + f.rel) f.size with
+        match encodeFixup f.a64b ((toOff : Int) - (f.off : Int) + f.rel) f.size with
         | some bs =>
           let (h, n, left, err) := resolveFixups (h.patch toSec f.off bs) toSec toOff r
           (h, n + 1, left, err)
@@ -347,6 +368,19 @@ def asmJmp (h : Holder) (c : Cur) (id : Nat) : Holder × Cur × String :=
   match h.labels[id]? with
   | none => (h, done c, "InvalidLabel")
   | some le =>
+    if h.arch == some .a64 then
+      -- `a64::Assembler::_emit(kIdB, label)`: `kEncodingBaseBranchRel` + `EmitOp_Rel` (the x86 form options mean nothing here)
+      match le.bound with
+      | some (s, target) =>
+        if s == c.sec then
+          match encodeA64B ((target : Int) - (c.off : Int)) with
+          | some bs => (h.write c.sec c.off (orAt [0, 0, 0, 20] 0 bs), done { c with off := c.off + 4 }, "ok")
+          | none => (h, done c, "InvalidDisplacement")
+        else (h, done c, "unsupported-cross-section")
+      | none =>
+        let h := (h.write c.sec c.off [0, 0, 0, 20]).addFixup id { sec := c.sec, off := c.off, rel := 0, size := 4, reloc := none, a64b := true }
+        (h, done { c with off := c.off + 4 }, "ok")
+    else
     let short := c.opts / optShort % 2 == 1
     let long := c.opts / optLong % 2 == 1
     match le.bound with
@@ -370,12 +404,15 @@ def asmJmp (h : Holder) (c : Cur) (id : Nat) : Holder × Cur × String :=
         let h := (h.write c.sec c.off [233, 0, 0, 0, 0]).addFixup id { sec := c.sec, off := c.off + 1, rel := -4, size := 4, reloc := none }
         (h, done { c with off := c.off + 5 }, "ok")
 
-/-- `BaseAssembler::embed_label` -/
-def asmElabel (h : Holder) (c : Cur) (id size : Nat) : Holder × Cur × String :=
+/-- `data_size == 0` means "register size" -/
+def elabelSize (arch : Option Arch) (size : Nat) : Nat :=
+  if size == 0 then (if arch == some .x86 then 4 else 8) else size
+
+/-- `BaseAssembler::embed_label` once the data size is known -/
+def asmElabelSz (h : Holder) (c : Cur) (id size : Nat) : Holder × Cur × String :=
   match h.labels[id]? with
   | none => (h, c, "InvalidLabel")
   | some le =>
-    let size := if size == 0 then (if h.arch == some .x86 then 4 else 8) else size
     if !(size == 1 || size == 2 || size == 4 || size == 8) then (h, c, "InvalidOperandSize")
     else
       let rid := h.relocs.length
@@ -386,6 +423,10 @@ def asmElabel (h : Holder) (c : Cur) (id size : Nat) : Holder × Cur × String :
         | some (s, o) => { h with relocs := h.relocs ++ [{ re with tgtSec := some s, payload := o }] }
         | none => ({ h with relocs := h.relocs ++ [re] }).addFixup id { sec := c.sec, off := c.off, rel := 0, size := size, reloc := some rid }
       (h.write c.sec c.off (List.replicate size 0), { c with off := c.off + size }, "ok")
+
+/-- `BaseAssembler::embed_label` -/
+def asmElabel (h : Holder) (c : Cur) (id size : Nat) : Holder × Cur × String :=
+  asmElabelSz h c id (elabelSize h.arch size)
 
 /-- `BaseAssembler::section` for a valid section -/
 def asmSwitch (h : Holder) (c : Cur) (s : Nat) : Holder × Cur × String :=
@@ -439,24 +480,27 @@ def Emitter.bldSwitch (e : Emitter) (s : Nat) : Emitter :=
       | none => e.nodes.length - 1
     { e with cursor := some cur, dirty := false }
 
+/-- the Assembler call a Builder node is serialised to (`BaseBuilder::serialize_to`, one loop iteration) -/
+def nodeGen (n : Node) (h : Holder) (c : Cur) : Holder × Cur × String :=
+  match n with
+  | .section s => asmSwitch h c s
+  | .label id => asmBind h c id
+  | .data bs => asmRaw h c bs
+  | .jmp id o => asmJmp h { c with opts := o } id
+  | .elabel id sz => asmElabel h c id sz
+
 /-- `BaseBuilder::serialize_to(&assembler)`: stops at the first error -/
 def serialize (h : Holder) (c : Cur) : List Node → Holder × Cur × String
   | [] => (h, c, "ok")
   | n :: r =>
-    let c := { c with cmt := false }            -- `dst->set_inline_comment(node->inline_comment())` (never set here)
-    let (h, c, err) :=
-      match n with
-      | .section s => asmSwitch h c s
-      | .label id => asmBind h c id
-      | .data bs => asmRaw h c bs
-      | .jmp id o => asmJmp h { c with opts := o } id
-      | .elabel id sz => asmElabel h c id sz
-    if err == "ok" then serialize h c r else (h, c, err)
+    -- `dst->set_inline_comment(node->inline_comment())` (never set here)
+    let res := nodeGen n h { c with cmt := false }
+    if res.2.2 == "ok" then serialize res.1 res.2.1 r else res
 
 /-! ### operations of the protocol -/
 
 inductive Op where
-  | world
+  | world (a64 : Bool)
   | init (a : Arch)
   | reset (hard : Bool)
   | reinit
@@ -525,7 +569,9 @@ def World.genAttached (w : World) (i : Nat) (e : Emitter) : Op → World × Stri
       (w.setE i ({ e with instOpts := 0, comment := false }.addNode (.jmp id e.instOpts)), "ok")
   | .elabel _ id sz =>
     if e.kind = .asm then w.viaAsm i e (asmElabel · · id sz)
-    else if !(sz == 0 || sz == 1 || sz == 2 || sz == 4 || sz == 8) then (w, "InvalidArgument")
+    -- BaseBuilder::embed_label: the same tests, in the same order, as the Assembler
+    else if id ≥ w.h.labels.length then (w, "InvalidLabel")
+    else if !(sz == 0 || sz == 1 || sz == 2 || sz == 4 || sz == 8) then (w, "InvalidOperandSize")
     else (w.setE i (e.addNode (.elabel id sz)), "ok")
   | .section _ name =>
     match w.h.newSection name with
@@ -553,7 +599,7 @@ def World.genAttached (w : World) (i : Nat) (e : Emitter) : Op → World × Stri
 /-- the whole step function: answer line for every operation -/
 def World.step (w : World) (op : Op) : World × String :=
   match op with
-  | .world => (World.fresh, "ok")
+  | .world a64 => (if a64 then World.freshA64 else World.fresh, "ok")
   | .init a => w.init a
   | .reset hard => (w.reset hard, "ok")
   | .reinit => w.reinit
